@@ -624,7 +624,7 @@ BUDGET = {"quick": dict(batches=14, docs=3, muts=len(CATALOGUE)),
 
 def run(tier, seed):
     import runner
-    b = BUDGET[tier]
+    b, tier = runner.budget(BUDGET, tier)
     tasks = [(seed, i, b["docs"], b["muts"], tier) for i in range(b["batches"])]
     rs = runner.pmap(run_batch, tasks)
     runner.stamp("load", "run_batch", tasks, rs)
